@@ -1,5 +1,5 @@
 //@unit sm9_key
-//@serves C09 C10 C14 C16 C17
+//@serves C09 C10 C14 C16 C17 C20
 //@source gm-sm9/src/key.rs
 //@rewrite be
 //@rewrite-text x.iter().all(|&byte| byte == 0) ==> shim_all_zero(x)
@@ -355,7 +355,7 @@ struct Sm9EncKey {
     de: TwistPoint,
 }
 impl Sm9EncKey {
-//@props C10
+//@props C10 C20
     fn decrypt(&self, idb: &[u8], data: &[u8]) -> (res: Sm9Result<Vec<u8>>)
         requires valid2(self.de), idb@.len() < 0x1000_0000_0000_0000
         ensures res is Ok ==> dec9_ok(abs2(self.de), idb@, data@, res->Ok_0@),
@@ -441,7 +441,7 @@ struct Sm9EncMasterKey {
     ppube: Point,
 }
 impl Sm9EncMasterKey {
-//@props C14
+//@props C14 C20
     fn master_key_generate() -> (r: Sm9EncMasterKey)
         ensures csprng9(r.ke@), 1 <= val4(r.ke@) < N9() - 1, valid1(r.ppube), abs1(r.ppube) == g1_smul(val4(r.ke@), G1P()),
     {
@@ -454,7 +454,7 @@ impl Sm9EncMasterKey {
         }
     }
 
-//@props C10 C14
+//@props C10 C14 C20
     #[verifier::exec_allows_no_decreases_clause]
     fn encrypt(&self, idb: &[u8], data: &[u8]) -> (c: Vec<u8>)
         requires valid1(self.ppube), 1 <= data@.len() <= 255, idb@.len() < 0x1000_0000_0000_0000
@@ -542,7 +542,7 @@ impl Sm9EncMasterKey {
         c
     }
 
-//@props C10 C16
+//@props C10 C16 C20
     fn extract_key(&self, id: &[u8]) -> (res: Option<Sm9EncKey>)
         requires 1 <= val4(self.ke@) < N9(), id@.len() < 0x1000_0000_0000_0000
         ensures res is None <==> (s_h1(id@, 3u8) + val4(self.ke@)) % N9() == 0,
@@ -570,7 +570,7 @@ impl Sm9EncMasterKey {
         })
     }
 
-//@props C16 C17
+//@props C16 C17 C20
     fn extract_exch_key(&self, id: &[u8]) -> (res: Option<Sm9EncKey>)
         requires 1 <= val4(self.ke@) < N9(), id@.len() < 0x1000_0000_0000_0000
         ensures res is None <==> (s_h1(id@, 2u8) + val4(self.ke@)) % N9() == 0,
@@ -598,7 +598,7 @@ impl Sm9EncMasterKey {
         })
     }
 }
-//@props C14
+//@props C14 C20
 fn generate_sign_master_key() -> (r: Sm9SignMasterKey)
     ensures csprng9(r.ks@), 1 <= val4(r.ks@) < N9() - 1, valid2(r.ppubs), abs2(r.ppubs) == g2_smul(val4(r.ks@), G2P()),
 {
@@ -609,7 +609,7 @@ fn generate_sign_master_key() -> (r: Sm9SignMasterKey)
         ppubs: TwistPoint::g_mul(&ks),
     }
 }
-//@props C14
+//@props C14 C20
 fn generate_enc_master_key() -> (r: Sm9EncMasterKey)
     ensures csprng9(r.ke@), 1 <= val4(r.ke@) < N9() - 1, valid1(r.ppube), abs1(r.ppube) == g1_smul(val4(r.ke@), G1P()),
 {
@@ -620,7 +620,7 @@ fn generate_enc_master_key() -> (r: Sm9EncMasterKey)
         ppube: Point::g_mul(&ke),
     }
 }
-//@props C10
+//@props C10 C20
 fn sm9_mac(k2: &[u8], z: &[u8]) -> (r: Vec<u8>)
     requires k2@.len() + z@.len() < 0x1000_0000_0000_0000
     ensures r@ == s_mac9(k2@, z@),
@@ -631,7 +631,7 @@ fn sm9_mac(k2: &[u8], z: &[u8]) -> (r: Vec<u8>)
     proof { assert(buf@ =~= z@ + k2@); }
     sm3_hash(&buf).to_vec()
 }
-//@props C09 C10 C16 C17
+//@props C09 C10 C16 C17 C20
 fn sm9_u256_hash1(id: &[u8], hid: u8) -> (r: U256)
     requires id@.len() < 0x1000_0000_0000_0000
     ensures val4(r@) == s_h1(id@, hid), 1 <= val4(r@) < N9(),
@@ -665,7 +665,7 @@ fn sm9_u256_hash1(id: &[u8], hid: u8) -> (r: U256)
     let r = mod_n_from_hash(&ha);
     r
 }
-//@props C09 C16
+//@props C09 C16 C20
 fn sm9_u256_hash2(data: &[u8], wbuf: &[u8]) -> (r: U256)
     requires data@.len() + wbuf@.len() < 0x1fff_ffff_ffff_fff0 /* relaxed from < 0x1000_0000_0000_0000, callers add 384 GT bytes */
     ensures val4(r@) == s_h2(data@, wbuf@), 1 <= val4(r@) < N9(),
@@ -699,7 +699,7 @@ fn sm9_u256_hash2(data: &[u8], wbuf: &[u8]) -> (r: U256)
     let r = mod_n_from_hash(&ha);
     r
 }
-//@props C10 C17
+//@props C10 C17 C20
 fn kdf(z: &[u8], klen: usize) -> (h_a: Vec<u8>)
     requires 1 <= klen < 0x1_0000_0000, z@.len() < 0x1fff_ffff_ffff_fff0 /* relaxed from < 0x1000_0000_0000_0000, callers add point and GT bytes */
     ensures h_a@ == s_kdf(z@, klen as nat),
@@ -747,7 +747,7 @@ struct Sm9SignKey {
 }
 impl Sm9SignKey {
     
-//@props C09 C14
+//@props C09 C14 C20
     #[verifier::exec_allows_no_decreases_clause]
     fn sign(&self, data: &[u8]) -> (res: Sm9Result<(U256, Point)>)
         requires valid2(self.ppubs), valid1(self.ds), data@.len() < 0x1000_0000_0000_0000
@@ -800,7 +800,7 @@ struct Sm9SignMasterKey {
     ppubs: TwistPoint,
 }
 impl Sm9SignMasterKey {
-//@props C14
+//@props C14 C20
     fn master_key_generate() -> (r: Self)
         ensures csprng9(r.ks@), 1 <= val4(r.ks@) < N9() - 1, valid2(r.ppubs), abs2(r.ppubs) == g2_smul(val4(r.ks@), G2P()),
     {
@@ -813,7 +813,7 @@ impl Sm9SignMasterKey {
         }
     }
 
-//@props C09 C16
+//@props C09 C16 C20
     fn extract_key(&self, idb: &[u8]) -> (res: Option<Sm9SignKey>)
         requires 1 <= val4(self.ks@) < N9(), idb@.len() < 0x1000_0000_0000_0000
         ensures res is None <==> (s_h1(idb@, 1u8) + val4(self.ks@)) % N9() == 0,
@@ -841,7 +841,7 @@ impl Sm9SignMasterKey {
         })
     }
 
-//@props C09
+//@props C09 C20
     fn verify_sign(&self, id: &[u8], data: &[u8], h: &U256, s: &Point) -> (res: Sm9Result<()>)
         requires valid2(self.ppubs), wf1(*s), val4(s.z@) != 0, id@.len() < 0x1000_0000_0000_0000, data@.len() < 0x1000_0000_0000_0000
         ensures res is Ok ==> ver9_ok(abs2(self.ppubs), id@, data@, val4(h@), abs1(*s)),
@@ -880,7 +880,7 @@ impl Sm9SignMasterKey {
         }
     }
 }
-//@props C14 C17
+//@props C14 C17 C20
 fn exch_step_1a(msk: &Sm9EncMasterKey, idb: &[u8]) -> (res: (Point, U256))
     requires valid1(msk.ppube), idb@.len() < 0x1000_0000_0000_0000
     ensures csprng9(res.1@), 1 <= val4(res.1@) < N9() - 1, valid1(res.0),
@@ -901,7 +901,7 @@ fn exch_step_1a(msk: &Sm9EncMasterKey, idb: &[u8]) -> (res: (Point, U256))
 
     (r, ra)
 }
-//@props C14 C17
+//@props C14 C17 C20
 #[verifier::exec_allows_no_decreases_clause]
 fn exch_step_1b(
     msk: &Sm9EncMasterKey,
@@ -997,7 +997,7 @@ fn exch_step_1b(
     proof { assert(csprng9(rb@) && exch9_b(val4(rb@), abs1(msk.ppube), abs2(key.de), ida@, idb@, abs1(*ra), klen as nat, abs1(r), sk@)); }
     Ok((r, sk))
 }
-//@props C17
+//@props C17 C20
 fn exch_step_2a(
     msk: &Sm9EncMasterKey,
     ida: &[u8],
